@@ -38,6 +38,9 @@ pub struct SimSource {
     tmp: Vec<i32>,
     bytebuf: Vec<u8>,
     hashbuf: Vec<u8>,
+    /// the library's own in-memory source doing the delivery (`Workload::via_mem`); this wrapper then only
+    /// keeps the books: what a `MemSource` made from `data` has to hand over is `data`, in order
+    lib_mem: Option<flacenc::source::MemSource>,
 }
 
 pub fn make_source_error(reason: u8, k: usize) -> SourceError {
@@ -104,7 +107,16 @@ impl SimSource {
             tmp: vec![],
             bytebuf: vec![],
             hashbuf: vec![],
+            lib_mem: None,
         }
+        .with_lib_mem(w.via_mem)
+    }
+
+    fn with_lib_mem(mut self, on: bool) -> Self {
+        if on {
+            self.lib_mem = Some(flacenc::source::MemSource::from_samples(&self.data, self.channels, self.bits, self.rate));
+        }
+        self
     }
 
     pub fn bytes_per_sample(&self) -> usize {
@@ -155,6 +167,9 @@ impl Source for SimSource {
         self.rate
     }
     fn len_hint(&self) -> Option<usize> {
+        if let Some(ms) = &self.lib_mem {
+            return ms.len_hint();
+        }
         self.len_hint
     }
 
@@ -163,6 +178,24 @@ impl Source for SimSource {
         self.reads += 1;
         if self.errored {
             self.reads_after_error += 1;
+        }
+        if let Some(ms) = &mut self.lib_mem {
+            let n = ms.read_samples(block_size, dest)?;
+            let ch = self.channels;
+            let end = ((self.pos + n) * ch).min(self.data.len());
+            let start = (self.pos * ch).min(end);
+            {
+                use md5::Digest;
+                let hb = (self.bits + 7) / 8;
+                let mut hbuf = std::mem::take(&mut self.hashbuf);
+                to_le_bytes(&self.data[start..end], hb, &mut hbuf);
+                self.handed_hash.update(&hbuf);
+                self.hashbuf = hbuf;
+            }
+            self.handed_len += n * ch;
+            self.pos += n;
+            self.reported += n;
+            return Ok(n);
         }
         let mut err_after: Option<SourceError> = None;
         for f in &self.faults {
